@@ -432,9 +432,58 @@ func decodeWithTimeout(metaLen int, sep string, r io.Reader) (dec sts.PayloadDec
 	}
 }
 
+// earlierLife puts the payload through what the send loop may do to it before the
+// transmission that is checked: a first attempt (header and body encoded once), then
+// nothing, the removal of a part whose file vanished, or a split after a partly
+// successful request. The expected part list follows the payload's own.
+func earlierLife(t *vt.T, p sts.Payload, want []wirePart) (sts.Payload, []wirePart) {
+	life := t.Weighted("earlierLife", 4, 1, 2, 2)
+	if life == 0 {
+		return p, want
+	}
+	byPart := map[sts.Binned]wirePart{}
+	for i, g := range p.GetParts() {
+		byPart[g] = want[i]
+	}
+	if _, err := p.EncodeHeader(); err != nil {
+		t.Violation("encode-header", "EncodeHeader: %v", err)
+	}
+	if t.Bool("firstAttemptBody") {
+		enc := p.GetEncoder()
+		io.Copy(io.Discard, enc)
+		enc.Close()
+	}
+	t.Class("retransmitted-payload")
+	parts := p.GetParts()
+	switch {
+	case life == 2 && len(parts) >= 2:
+		i := t.Pick("removePart", len(parts))
+		p.Remove(parts[i])
+		t.Class("part-removed-after-first-attempt")
+		t.Note("first attempt, then part %d removed", i)
+	case life == 3 && len(parts) >= 2:
+		k := t.IntRange("splitAt", 1, len(parts)-1)
+		tail := p.Split(k)
+		if tail == nil {
+			t.Violation("split-refused", "Split(%d) of %d parts returned nil", k, len(parts))
+		}
+		t.Class("split-after-first-attempt")
+		if t.Bool("sendTail") {
+			p = tail
+		}
+		t.Note("first attempt, then split at %d", k)
+	}
+	var w2 []wirePart
+	for _, g := range p.GetParts() {
+		w2 = append(w2, byPart[g])
+	}
+	return p, w2
+}
+
 func propRoundTrip(t *vt.T) {
 	sep := t.OneOf("sep", "/", "\\")
 	p, want, minPart := buildPayload(t, sep, 8)
+	p, want = earlierLife(t, p, want)
 	bufSize := t.OneOf("encBuf", "4096", "1", "2", "5", "13", "64")
 	bs := 0
 	fmt.Sscan(bufSize, &bs)
